@@ -884,7 +884,11 @@ impl<T: ArrayValue + ArrayCmp<U>, U: ArrayValue> PartialOrd<Array<U>> for Array<
             .zip(&other.data)
             .map(|(a, b)| a.array_cmp(b))
             .find(|o| o != &Ordering::Equal)
-            .unwrap_or_else(|| self.shape.cmp(&other.shape));
+            .unwrap_or_else(|| {
+                // When one array's data is a prefix of the other's, the shorter
+                // one must come first, or the order is not transitive
+                (self.data.len().cmp(&other.data.len())).then_with(|| self.shape.cmp(&other.shape))
+            });
         Some(cmp)
     }
 }
